@@ -1,6 +1,7 @@
 """Verdict bookkeeping: rule instances, known findings, evidence file, exit codes.
 
 exit 0: every rule instance held (or is a listed known finding)
+exit 1 also when a violation and an analysis-broken condition coincide (the violation is concrete)
 exit 1: VIOLATION line(s) for failing instances not listed
 exit 2: analysis broken (anchor vanished, unit does not parse, instance floor not met)
 """
@@ -172,7 +173,9 @@ class Check:
         if self.broken:
             for b in self.broken:
                 print('ANALYSIS-BROKEN property=%s %s' % (self.pid, b))
-            return 2
+            if not violations:
+                return 2
+            # a concrete violation was established on recognised code: it is reported (exit 1) although another rule lost its anchor
         if violations:
             rdir = os.path.join(EVDIR, 'replay')
             os.makedirs(rdir, exist_ok=True)
